@@ -250,13 +250,11 @@ def parseChunkSpec (s : String) : Option (Option (Nat × Bool) × List UInt8) :=
     pure (v, d)
   | _ => none
 
-def writeChunks (cap : Nat) : List (Option (Nat × Bool) × List UInt8) → List UInt8 → String
-  | [], acc => s!"ok {toHex acc}"
-  | (v, d) :: rest, acc =>
-    match writeChunk d v cap acc with
-    | .ok acc' => writeChunks cap rest acc'
-    | .capacity => "capacity"
-    | .panic _ => "panic"
+def writeChunks (cap : Nat) (cs : List (Option (Nat × Bool) × List UInt8)) (acc : List UInt8) : String :=
+  match writeChunkList (cs.map fun x => (x.2, x.1)) cap acc with
+  | .ok bs => s!"ok {toHex bs}"
+  | .capacity => "capacity"
+  | .panic _ => "panic"
 
 def handle (toks : List String) : String :=
   match toks with
